@@ -124,6 +124,18 @@ def run(tier):
         conds.append(Cond(path, 'isar__%d' % k, 'isar-element-total/' + el,
                           dict(check='isar element builders are total', element=el, symbolic='presence of every attribute of the element, its member and its dimension (8 bits)'),
                           sample_args=[True] * 8))
+    for k, el in enumerate(('struct-member', 'message-member', 'typedef', 'union-member')):
+        # the member conditions are split by name value and isVariableSize (each still quantifies over type, size and counter values)
+        splits = [(None, None)] if k >= 2 else [(a, f) for a in range(4) for f in (False, True)]
+        for a, f in splits:
+            fn = 'isarval__%d' % k + ('' if a is None else '__%d_%d' % (a, int(f)))
+            pre = '0 <= v0 <= 3 and 0 <= v1 <= 5 and 0 <= v2 <= 7 and 0 <= v3 <= 4' + ('' if a is None else ' and v0 == %d and flag == %r' % (a, f))
+            body.append('def %s(v0: int, v1: int, v2: int, v3: int, flag: bool) -> bool:\n    """\n    pre: %s\n    post: _\n    """\n'
+                        '    return RB.isar_values_total(%d, v0, v1, v2, v3, flag)\n\n' % (fn, pre, k))
+            conds.append(Cond(path, fn, 'isar-values-total/' + el + ('' if a is None else '/name%d-var%d' % (a, int(f))),
+                              dict(check='isar attribute values (valid, empty, dangling, wrong-kind references) stay in the designed channel through all back-ends', element=el,
+                                   symbolic='value selectors for name, type, size / discriminator / primitive type, counter name; isVariableSize'),
+                              sample_args=[a or 0, 0, 0, 0, bool(f)]))
     body.append('def patchline__0(nwords: int, action_sel: int, params_sel: int, target_sel: int) -> bool:\n    """\n'
                 '    pre: 0 <= nwords <= 2 and 0 <= action_sel < %d and 0 <= params_sel < %d and 0 <= target_sel <= 2\n    post: _\n    """\n'
                 '    return RB.patch_line_total(nwords, action_sel, params_sel, target_sel)\n\n' % (len(RB.ACTIONS), len(RB.PARAMS)))
